@@ -14,7 +14,7 @@
 (***************************************************************************)
 EXTENDS ImportsContract
 CONSTANTS MaxEdges, MaxPerFile, Emit, Forms, Medias
-VARIABLE edges
+VARIABLES edges, gap      \* gap: an unknown at-rule sits between the first and the second @import of every file (the parser accepts it)
 
 Url(host, path) == [scheme |-> "http", host |-> host, path |-> path, query |-> "", frag |-> ""]
 Rel(segs) == Ref("", "", FALSE, segs, "", "")
@@ -27,8 +27,8 @@ Order == <<"main", "a", "b", "p", "c", "d", "e", "f", "g", "hh">>
 Pos(id) == CHOOSE i \in 1..Len(Order) : Order[i] = id
 Loc == [main |-> Url("h", <<"css", "main.css">>), a |-> Url("h", <<"css", "a.css">>), b |-> Url("h", <<"css", "sub", "b.css">>),
         p |-> Url("h", <<"css", "deep", "er", "p.css">>), c |-> Url("h", <<"c.css">>), d |-> Url("h", <<"sib", "d.css">>),
-        e |-> Url("h", <<"abs", "e.css">>), f |-> Url("h2", <<"x", "f.css">>), g |-> Url("h2", <<"x", "g.css">>),
-        hh |-> Url("h2", <<"x", "y", "h.css">>)]
+        e |-> Url("h", <<"abs", "e.css">>), f |-> Url("h2:8080", <<"x", "f.css">>), g |-> Url("h2:8080", <<"x", "g.css">>),
+        hh |-> Url("h2:8080", <<"x", "y", "h.css">>)]
 Body == [main |-> <<Style(".m", <<Rel(<<"m.png">>), Rel(<<"img", "m.png">>), Rel(<<"..", "m.png">>)>>)>>,
          a |-> <<Style(".a", <<Rel(<<"a.png">>), Ref("", "", FALSE, <<"img", "a.png">>, "v=1", ""), Ref("", "", FALSE, <<"..", "up", "a.svg">>, "", "f")>>)>>,
          b |-> <<Style(".b", <<Rel(<<"b.png">>), Rel(<<"..", "b2.png">>), Rel(<<"..", "..", "b3.png">>), Root(<<"root", "b.png">>)>>),
@@ -55,7 +55,9 @@ RefOf(src, e) ==
                [] e.form = "abs"  -> Full(t.host, t.path)
                [] OTHER           -> SchemeRel(t.host, t.path)
 
-Stmts(id) == [i \in 1..Len(edges[id]) |-> [k |-> "import", ref |-> RefOf(id, edges[id][i]), media |-> edges[id][i].media]] \o Body[id]
+ImportStmts(id) == [i \in 1..Len(edges[id]) |-> [k |-> "import", ref |-> RefOf(id, edges[id][i]), media |-> edges[id][i].media]]
+Unknown == [k |-> "unknown", sel |-> "@layer", urls |-> <<>>]
+Stmts(id) == (IF gap /\ Len(edges[id]) >= 2 THEN <<ImportStmts(id)[1], Unknown>> \o Tail(ImportStmts(id)) ELSE ImportStmts(id)) \o Body[id]
 Targets(s) == {edges[s][i].to : i \in 1..Len(edges[s])} \ {"missing"}
 RECURSIVE Reach(_, _)
 Reach(S, n) == IF n = 0 THEN S ELSE Reach(S \cup UNION {Targets(s) : s \in S}, n - 1)
@@ -65,15 +67,16 @@ NEdges == LET RECURSIVE Sum(_)
               Sum(S) == IF S = {} THEN 0 ELSE LET x == CHOOSE y \in S : TRUE IN Len(edges[x]) + Sum(S \ {x})
           IN  Sum(DOMAIN edges)
 
-Init == edges = [id \in ToSet(Order) |-> <<>>]
+Init == edges = [id \in ToSet(Order) |-> <<>>] /\ gap \in BOOLEAN
 AddEdge(src, e) == /\ src \in Reachable
                    /\ NEdges < MaxEdges
                    /\ Len(edges[src]) < MaxPerFile
                    /\ edges' = [edges EXCEPT ![src] = Append(@, e)]
+                   /\ UNCHANGED gap
 Next == \E src \in ToSet(Order), to \in ToSet(Order) \cup {"missing"}, m \in Medias :
             /\ (IF to = "missing" THEN TRUE ELSE Pos(src) < Pos(to))      \* acyclic (cycles are C01's subject)
             /\ \E fm \in FormsFor(src, to) \cap Forms : AddEdge(src, [to |-> to, form |-> fm, media |-> m])
-Spec == Init /\ [][Next]_edges
+Spec == Init /\ [][Next]_<<edges, gap>>
 
 RootLoc == Loc["main"]
 
